@@ -546,3 +546,72 @@ def evaluate(expr, variables=None, functions=None):
         return _eval(expr, variables or {}, functions or {})
     except _Unspec:
         return UNSPECIFIED
+
+
+# ---------------------------------------------------------------------------------------------------------------------
+# self-test of the reference (run by mc/selftest.py): hand-written vectors, among them the repository's own documented
+# precedence examples and operator rows
+
+
+def _b(op, left, right):
+    return {'binary': {'op': op, 'left': left, 'right': right}}
+
+
+def selftest():
+    def num(x):
+        return {'number': float(x)}
+
+    def var(x):
+        return {'variable': x}
+
+    assert parse('7 * 3 + 5') == _b('+', _b('*', num(7), num(3)), num(5))
+    assert parse('7 + 3 * 5') == _b('+', num(7), _b('*', num(3), num(5)))
+    assert parse('2 * 3 + 4 - 1') == _b('-', _b('+', _b('*', num(2), num(3)), num(4)), num(1))
+    assert parse('1 + 2 / 3 / 4 * 5') == _b('+', num(1), _b('*', _b('/', _b('/', num(2), num(3)), num(4)), num(5)))
+    assert parse('1 >= 2 && 3 < 4 - 5') == _b('&&', _b('>=', num(1), num(2)), _b('<', num(3), _b('-', num(4), num(5))))
+    assert parse('(7 + 3) * 5') == _b('*', {'group': _b('+', num(7), num(3))}, num(5))
+    assert parse('a ** b ** c') == _b('**', _b('**', var('a'), var('b')), var('c'))
+    assert parse('-a ** b') == _b('**', {'unary': {'op': '-', 'expr': var('a')}}, var('b'))
+    assert parse('a || b && c == d < e + f * g ** h') == _b('||', var('a'), _b('&&', var('b'), _b('==', var('c'), _b(
+        '<', var('d'), _b('+', var('e'), _b('*', var('f'), _b('**', var('g'), var('h'))))))))
+    assert parse("'ab \\'c\\' d\\\\e \\f'") == {'string': "ab 'c' d\\e \\f"}
+    assert parse('test("abc \\\\", "def")') == {'function': {'name': 'test', 'args': [{'string': 'abc \\'}, {'string': 'def'}]}}
+    assert parse('[a b] + [x\\]y]') == _b('+', var('a b'), var('x]y'))
+    assert parse('a -1') == _b('-', var('a'), num(1)) and parse('a - -1') == _b('-', var('a'), num(-1))
+    assert normal(parse('-1 ** 2')) == normal(_b('**', {'unary': {'op': '-', 'expr': num(1)}}, num(2)))
+    assert parse('1e+3 + 1.') == _b('+', num(1000), num(1)) and parse('fn()') == {'function': {'name': 'fn', 'args': []}}
+    for bad in ('', 'a +', 'a b', 'f(1)', '1e5', '+ 1', '+a', '.5', '()', 'fn(a,)', 'fn(,a)', '(a', 'a)', 'a ! b', 'a * * b', "'abc"):
+        assert parse_outcome(bad)[0] == 'reject', bad
+    assert parse_outcome("'a\\'")[0] == 'unspecified'
+
+    date = datetime.datetime(2024, 1, 6)
+    assert binary_op('+', 10, 2) == 12 and binary_op('+', 'foo', 2) == 'foo2' and binary_op('+', 2, 'foo') == '2foo'
+    assert binary_op('+', date, 86400000) == datetime.datetime(2024, 1, 7)
+    assert binary_op('+', -86400000, datetime.date(2024, 1, 6)) == datetime.datetime(2024, 1, 5)
+    assert binary_op('-', datetime.datetime(2024, 1, 7), datetime.date(2024, 1, 6)) == 86400000
+    assert binary_op('+', 2, None) is None and binary_op('-', 2, None) is None and binary_op('*', '2', 2) is None
+    assert binary_op('+', True, 1) is None and unary_op('-', True) is None and unary_op('!', 0) is True
+    assert binary_op('/', 1, 0) is UNSPECIFIED and binary_op('%', -7, 3) is UNSPECIFIED and binary_op('%', 7, 3) == 1
+    assert binary_op('**', -8, 0.5) is UNSPECIFIED and binary_op('**', 10, 1000) is UNSPECIFIED and binary_op('**', 2, 10) == 1024
+    assert binary_op('<', None, 0) is True and binary_op('==', 1, 1.0) is True and binary_op('==', True, 1) is False
+    assert binary_op('<', [1], [1, 2]) is True and binary_op('>=', 'a', 1) is True
+    log = []
+
+    def eff(vals):
+        log.append(vals[0])
+        return vals[0]
+
+    def call(x):
+        return {'function': {'name': 'eff', 'args': [x]}}
+
+    funcs = {'eff': eff}
+    assert evaluate(_b('&&', call(num(0)), call(num(1))), {}, funcs) == 0 and log == [0]
+    del log[:]
+    assert evaluate(_b('||', call(num(0)), call({'string': 'x'})), {}, funcs) == 'x' and log == [0, 'x']
+    del log[:]
+    assert evaluate({'function': {'name': 'if', 'args': [call(num(0)), call(num(1)), call(num(2))]}}, {}, funcs) == 2 and log == [0, 2]
+    del log[:]
+    assert evaluate({'function': {'name': 'if', 'args': [call(num(1)), call(num(3))]}}, {}, funcs) == 3 and log == [1, 3]
+    assert evaluate({'function': {'name': 'if', 'args': [num(0), num(3)]}}) is None
+    assert evaluate(_b('+', _b('/', num(1), num(0)), num(1))) is UNSPECIFIED
+    assert evaluate(_b('+', {'variable': 'x'}, {'variable': 'true'}), {'x': 'v'}) == 'vtrue'
